@@ -341,3 +341,31 @@ Theorem C15_source_delete_roles_for_user_in_domain : forall k s u r d,
   = Some (step k s (ODeleteRolesForUserInDomain u r d)).
 Proof. exact WrapTie.tie_delete_roles_for_user_in_domain. Qed.
 Print Assumptions C15_source_delete_roles_for_user_in_domain.
+
+(* ---------- get_implicit_roles_for_user, from the source ----------
+   Enforcer.get_implicit_roles_for_user regenerated from casbin/enforcer.py on this run (coq/gen/ImplRolesGen.v; every
+   statement one of the recognised steps of ImplLang.v), executed by ImplLang's interpreter with the model's bound on the
+   walk as the loop's fuel, is Mgmt.get_implicit_roles - the function of C15_implicit_roles_is_reach above. *)
+From PyCasbin Require ImplLang ImplTie.
+From PyCasbinGen Require ImplRolesGen.
+
+Theorem C15_source_get_implicit_roles_for_user : forall k s u d,
+  ImplLang.qrun k u d (names_bound s) 30 ImplRolesGen.implicit_roles_gen s = get_implicit_roles k s u d.
+Proof. exact ImplTie.tie_get_implicit_roles. Qed.
+Print Assumptions C15_source_get_implicit_roles_for_user.
+
+(* hence, of the regenerated source: on an RBAC model in a state satisfying the invariant the walk terminates within the
+   bound, lists every role once, and lists exactly the names reachable from the user by at least one assignment *)
+Theorem C15_source_implicit_roles_is_reach : forall k s u d, k_g k = true -> k_g2 k = false -> Inv k s ->
+  exists roles s', ImplLang.qrun k u d (names_bound s) 30 ImplRolesGen.implicit_roles_gen s = Ok (roles, s')
+    /\ NoDup roles
+    /\ (forall r, In r roles <-> exists n, path (link_edge (links_at k s d)) (S n) u r).
+Proof.
+  intros k s u d Hg Hg2 HI. destruct (implicit_roles_reach k s u d Hg Hg2 HI) as (roles & s' & E & ND & R & _).
+  exists roles, s'. rewrite ImplTie.tie_get_implicit_roles. repeat split; try assumption; apply R.
+Qed.
+Print Assumptions C15_source_implicit_roles_is_reach.
+
+Example C15_source_implicit_roles_example :
+  ImplLang.qrun k_rbac15 1003 0 (names_bound ex_state) 30 ImplRolesGen.implicit_roles_gen ex_state = Ok ([1006; 1007; 1003], ex_state).
+Proof. vm_compute. reflexivity. Qed.
